@@ -117,6 +117,7 @@ def candidates(m, allowed):
     add('prefetch1', True)
     add('reshuffle', m.indexable and m.sized and not hr)
     add('local_shuffle', not hr)
+    add('apply', not hr)
     add('concat', not un, weight=2)
     add('intersperse', not un and m.sized and m.n >= 1)
     add('zip', not un and m.sized)
@@ -143,7 +144,11 @@ def st_stage(draw, op, node, m, ctx, allowed, budget):
     if op == 'frag':
         return {'op': 'frag', 'in': node}
     if op == 'batch_map':
-        return {'op': 'batch_map', 'fn': draw(st.integers(0, 3)), 'in': node}
+        out = {'op': 'batch_map', 'fn': draw(st.integers(0, 3)), 'in': node}
+        if 'parmap' in allowed and draw(st.integers(0, 2)) == 0:
+            w = draw(st.integers(1, 2))
+            out.update(workers=w, buffer=draw(st.integers(w, 3)))
+        return out
     if op in ('filter_lazy', 'filter_eager'):
         mm = draw(st.integers(2, 3))
         return {'op': 'filter', 'm': mm, 'r': draw(st.integers(0, mm - 1)), 'lazy': op == 'filter_lazy',
@@ -181,11 +186,16 @@ def st_stage(draw, op, node, m, ctx, allowed, budget):
         catch_ok = m.indexable and m.sized
         spec = draw(st.sampled_from([False, False, True, 'VErrA', ['VErrA', 'VErrC']])) if catch_ok else False
         return {'op': 'prefetch', 'workers': w, 'buffer': draw(st.integers(w, 4)), 'catch': spec, 'in': node}
+    if op == 'apply':
+        fns = ['map', 'local'] + (['shuffle'] if (m.fidx and m.sized) else [])
+        return {'op': 'apply', 'fn': draw(st.sampled_from(fns)), 'seed': draw(st.integers(0, 50)),
+                'rng': draw(st.sampled_from(['rs', 'gen'])), 'in': node}
     if op == 'reshuffle':
-        return {'op': 'reshuffle', 'seed': draw(st.integers(0, 50)), 'in': node}
+        return {'op': 'reshuffle', 'seed': draw(st.integers(0, 50)), 'rng': draw(st.sampled_from(['rs', 'rs', 'gen'])),
+                'in': node}
     if op == 'local_shuffle':
         return {'op': 'local_shuffle', 'buffer': draw(st.integers(1, max(1, n + 1))),
-                'seed': draw(st.integers(0, 50)), 'in': node}
+                'seed': draw(st.integers(0, 50)), 'rng': draw(st.sampled_from(['rs', 'rs', 'gen'])), 'in': node}
     # n-ary
     if op == 'concat':
         k = draw(st.integers(1, 2))
